@@ -107,6 +107,21 @@ def check(model, rep):
     # ---------------------------------------------------------------- R08.2
     rep.rule('R08.2', 'Arm.massMatrix = sum over i in range(len(theta)) of J_i^T @ G_i @ J_i with one index')
     arm = model.cls(ARM, 'Arm')
+    # the rules below read calls between the dynamics methods by position and through locals: keyword arguments are moved to their positions and
+    # private helpers that only hand values on (e.g. the Mlist / Glist / Slist tables) are read in place - in this process' copy of the class
+    import copy as _copy8
+    from .common_ops import positional_self_calls, flat_method as _fm8
+    _arm_view = _copy8.copy(arm)
+    _arm_view.methods = dict(arm.methods)
+    for _nm in list(_arm_view.methods):
+        if 'ynamics' in _nm or _nm in ('massMatrix', 'coriolisGravity', 'jacobianLink'):
+            _f = positional_self_calls(arm, arm.methods[_nm])
+            _arm_view.methods[_nm] = _f
+    for _nm in list(_arm_view.methods):
+        if ('ynamics' in _nm or _nm in ('massMatrix', 'coriolisGravity')) and any(
+                isinstance(c_, ast.Call) and isinstance(c_.func, ast.Attribute) and c_.func.attr.startswith('_helper') for c_ in ast.walk(_arm_view.methods[_nm].node)):
+            _arm_view.methods[_nm] = _fm8(_arm_view, _nm, stop=('_helper_ensure_theta_not_none',))
+    arm = _arm_view
     mmf = arm.methods.get('massMatrix')
     if mmf is None:
         raise AnalysisError('anchor vanished: Arm.massMatrix')
@@ -300,10 +315,11 @@ def r084(model, rep, arm):
         for t in _terms(n.value, single, lambda e: mentions(acc_tab)(e) or mentions(gname)(e)):
             t = opened(t, lambda e: mentions(acc_tab)(e) or mentions(gname)(e))
             if isinstance(t, ast.BinOp) and isinstance(t.op, ast.MatMult):
-                if mentions(acc_tab)(t.right) and not mentions(gname)(t):
+                r_ = opened(t.right, lambda e: mentions(acc_tab)(e) or mentions(gname)(e))       # the right operand may have been named (base acceleration)
+                if mentions(acc_tab)(r_) and not mentions(gname)(t.left) and not mentions(gname)(r_):
                     gen_ops.append((n, t.left))
-                elif mentions(gname)(t.right) and not mentions(gname)(t.left):
-                    base.append((n, t.left, t.right))
+                elif mentions(gname)(r_) and not mentions(gname)(t.left):
+                    base.append((n, t.left, r_))
             elif mentions(gname)(t):
                 base.append((n, None, t))
     rep.count('R08.4 propagation terms (general step)', len(gen_ops))
